@@ -130,6 +130,10 @@ pub fn documents(tier: Tier) -> Vec<(String, bool)> {
         v.push((t.to_string(), false));
     }
     v.push(("He is *better then* me and she is better then him. An **problem**, a problem.".into(), true));
+    // lints one character into the document (behind an opening quote / bracket)
+    v.push(("“that that” sometimes means “that which”, and teh rest.".into(), true));
+    v.push(("(teh cat) sat on teh mat.".into(), true));
+    v.push(("\"an problem\" here and an problem there.".into(), false));
     for s in h.seeds.iter().filter(|s| s.chars().count() >= 12 && s.chars().count() <= 200) {
         v.push((s.clone(), false));
         if tier == Tier::Thorough || s.contains('*') || s.contains('`') {
